@@ -14,6 +14,7 @@ usage: mutation_sweep.py stage1 [--workers N] [--limit K] [--seed S] [--files gl
 import argparse, fnmatch, json, os, random, shutil, subprocess, sys, threading, time, queue
 
 ROOT = "/tmp/mut"
+VDIR = os.environ.get("VERIF_DIR", "/verif")
 ENV = dict(os.environ, GOFLAGS="-mod=mod", GOPROXY="off", GOSUMDB="off", GOTOOLCHAIN="local")
 SKIP = ("html5entities", "unicode_case_folding", "util_cjk", "_benchmark", "fuzz/", "_tools", "testutil/", "cmd/")
 
@@ -51,7 +52,7 @@ def files():
 
 def list_mutants(sel):
     os.makedirs(ROOT, exist_ok=True)
-    rc, out = sh(["go", "build", "-o", ROOT + "/mutate", "."], cwd="/verif/tools/mutate")
+    rc, out = sh(["go", "build", "-o", ROOT + "/mutate", "."], cwd=VDIR + "/tools/mutate")
     if rc:
         sys.exit(out)
     fs = [f for f in files() if not sel or any(fnmatch.fnmatch(f, g) for g in sel)]
@@ -159,7 +160,7 @@ def stage2(a):
     random.Random(a.seed).shuffle(todo)
     todo = todo[: a.limit or None]
     print("survivors", len(surv), "already", len(seen), "todo", len(todo), flush=True)
-    rc, out = sh(["go", "build", "-o", ROOT + "/verifrun", "./cmd/verifrun"], cwd="/verif/harness")
+    rc, out = sh(["go", "build", "-o", ROOT + "/verifrun", "./cmd/verifrun"], cwd=VDIR + "/harness")
     if rc:
         sys.exit(out)
 
@@ -171,8 +172,8 @@ def stage2(a):
             for c in order_for(m["file"], a.all_checks)[: a.maxchecks or None]:
                 if a.skip_race and c == "C07":
                     continue
-                env = dict(ENV, VERIF_REPO=d, VERIF_NOKNOWN="1", VERIF_SHARDS=str(a.shards), VERIF_SEED=str(a.vseed), VERIF_SCALE_PCT=str(a.scale))
-                rc, out = sh([ROOT + "/verifrun", c, "quick"], cwd="/verif/harness", timeout=1500, env=env)
+                env = dict(ENV, VERIF_DIR=VDIR, VERIF_REPO=d, VERIF_NOKNOWN="1", VERIF_SHARDS=str(a.shards), VERIF_SEED=str(a.vseed), VERIF_SCALE_PCT=str(a.scale))
+                rc, out = sh([ROOT + "/verifrun", c, "quick"], cwd=VDIR + "/harness", timeout=1500, env=env)
                 tried.append([c, rc])
                 if rc == 1 and "VIOLATION property=" in out:
                     det = c
